@@ -307,6 +307,7 @@ func execExtra(p *Pool, o Op, out *Outcome) (handled bool, bad error) {
 	case "BusSetBuilder":
 		if b := p.bus(a(0)); need(b != nil) {
 			b.SetCANIDBuilder(p.bld(a(1)))
+			p.holdDefault(b)
 		}
 	default:
 		handled = false
